@@ -31,12 +31,32 @@ def corpus():
 ENGINES = [{"name": "pipe", "gen": gen, "corpus": corpus, "nontrivial": nontrivial, "classify": pipegen.classify, "shards": 12}]
 from props.e2e_common import e2e_engine
 ENGINES.append(e2e_engine("C02"))   # the same histories against a real pipeline over TCP/HTTP
-known_signature = known_signature_for({"K2"})
-LEVEL_TEXT = ("Theorems: a session-wide withdrawal (single and bulk) changes exactly the records of its ids and nothing else (frame, all RIB states); Peer Down "
+from props import bgpend_common
+ENGINES.append(bgpend_common.bgpend_engine())   # the END of a BGP session on the real Processor::process loop, every exit
+_pipe_signature = known_signature_for({"K2"})
+
+
+def known_signature(k, engine, case, mo, spec, im):
+    return bgpend_common.known_signature(k, engine, case, mo, spec, im) or (engine != "bgpend" and _pipe_signature(k, engine, case, mo, spec, im))
+
+
+TRUSTED_BASE = TRUSTED_BASE + [bgpend_common.BGPEND_TRUSTED]
+ASSUMPTIONS = ASSUMPTIONS + bgpend_common.BGPEND_ASSUMPTIONS
+RULE = RULE + ("; engine bgpend: every script of length <= 3 (thorough: 4) over the 13 events the loop of the BGP session processor can see, with and "
+               "without an earlier session of the same peer, plus random longer sessions (routes announced and withdrawn, another source's routes in the "
+               "RIB) ended by each exit; non-trivial = the session's withdrawal was sent and a route of the session reads withdrawn")
+LEVEL_TEXT = ("BGP session end (Bgp/BgpSessionModel.v, the select! loop of Processor::process and the block after it): for EVERY script of loop events and "
+              "however the session ends, the updates its processor sent leave every entry of every other ingress id as it was, and after a registered "
+              "session every entry under its id reads withdrawn (C02_bgp_*). "
+              "Theorems: a session-wide withdrawal (single and bulk) changes exactly the records of its ids and nothing else (frame, all RIB states); Peer Down "
               "emits exactly that peer's id, Termination exactly the up peers' ids; an ingress id answers one (parent, address, AS, RIB view) only; and the "
               "refutation: peers differing only in BGP id / policy flag / distinguisher share an id (known finding C02-1). Tied to the real code by generated "
               "histories over a peer pool whose members differ in single header fields.")
 DESIGN_REF = "DESIGN.md section 6, C02"
 LEVEL_NOTE = ("Trusted: as C01. The wire-level isolation statement holds only for peers with distinct (address, AS, RIB view) per router: C02_isolation_partial; the rest is known finding C02-1. On the pipeline model it is proved for every history in which no two wire identities share an ingress id "
-              "(Pipe/PipeCompose.v: C02_isolation_by_wire_identity, C02_pipeline_isolation).")
+              "(Pipe/PipeCompose.v: C02_isolation_by_wire_identity, C02_pipeline_isolation). The BGP session end is modelled at the level of the events its loop sees "
+              "(session = routecore's Session as far as tick()/negotiated()/the message channel go; gate = the statuses process() returns): C02_bgp_session_touches_only_own "
+              "holds for all scripts, C02_bgp_session_end_withdraws_own for sessions that keep routecore's side of the contract (bs_wf); tied to the real loop by engine bgpend. "
+              "In `pipe`/`e2e` the BGP session end is still the harness's emulation; routecore's FSM and TCP are not modelled; known finding bgp-window "
+              "(live_sessions bookkeeping, no route affected).")
 TECHNIQUE = "Coq frame lemmas over the RIB model + refutation witness + model/implementation correspondence"
